@@ -12,7 +12,8 @@
 
   OBLIGATIONS (checked by the harness):
     hints_table nonmatching_passthrough nonmatching_template_irrelevant
-    declaration_order_pipeline pipeline_stages first_match_wins identity_body_is_identity
+    declaration_order_pipeline pipeline_stages single_template_is_tree_rewrite first_match_wins
+    identity_body_is_identity
     identity_templates_passthrough filter_terminates render_declarations_first
     once_hint_irrelevant buffer_hint_irrelevant lazy_eq_eager window_footprint
     matcher_state_in_sync output_wellnested select_keeps_nesting
@@ -27,6 +28,7 @@ import Genshi.Lemmas.MatchEquiv
 import Genshi.Lemmas.MatchPipeline2
 import Genshi.Lemmas.MatchIdentity
 import Genshi.Lemmas.MatchTotal
+import Genshi.Lemmas.MatchSpec
 import Genshi.Model.MatchPath
 import Genshi.Model.MatchLazy
 import Genshi.Gen.MatchHints
@@ -91,6 +93,20 @@ theorem pipeline_stages {σ : Type} (f s : Nat) (e : Option Nat) (items : List (
     (hsm : s ≤ m) (hme : ∀ n, e = some n → m ≤ n) (h : run f s e items M = some (M', out)) :
     ∃ f' out1 L, run f' s (some m) items M = some (L, out1) ∧ run f' m e (evItems out1) L = some (M', out) :=
   pipeline_seq f s e items M M' out m hnr hneu hok hsm hme h
+
+/-- **Exactly the matching elements.**  The stage of the pipeline that owns one template (slot `i`,
+    window `[i, i+1)`; no `once`; lawful matcher) is this tree rewrite of the document, for every forest:
+    an element is replaced iff the template's matcher fires on its START in the state reached by
+    testing the STARTs of its ancestors (`openSt`); it is replaced by the body with every
+    `${select(p)}` evaluated on START · rewritten content · END (plain content for `recursive="false"`);
+    every other event passes unchanged; and the matcher ends in the state it started in.
+    With `pipeline_stages` the whole filter is the composition of these rewrites in declaration order. -/
+theorem single_template_is_tree_rewrite {σ : Type} (t : MT σ) (b : σ) (i : Nat) (hl : Lawful t) (ho : t.once = false)
+    (f : Nat) (ns : List Node) (anc : List Open) (M : List (MT σ)) (r : List (MT σ) × List Event)
+    (hns : okList ns = true) (hslot : SlotAt i t b anc M)
+    (h : run f i (some (i + 1)) (evItems (flattenList ns)) M = some r) :
+    r.2 = specList t b anc ns ∧ SlotAt i t b anc r.1 :=
+  stage_is_spec t b i hl ho f ns anc M r hns hslot h
 
 /-- The template that fires is the first of the window, in declaration order, whose test accepts
     the START; every earlier one of the window was asked and declined. -/
@@ -368,6 +384,14 @@ def docId : List (Item PSt) :=
 example : (run 40 0 none docId (ins tId 1 [tAB, tWrap])).map (·.2) = (run 40 0 none docId [tAB, tWrap]).map (·.2) := by
   decide
 example : (run 40 0 none docId [tAB, tWrap]).map (·.2) = some [S 'w', S 'x', E 'x', E 'w', S 'b', E 'b'] := by decide
+
+/-- the specification on a small forest: `<a><b/>u</a><b/>` under `a/b → <x/>` -/
+def forest1 : List Node :=
+  [.elem ⟨[], ['a']⟩ [] [.elem ⟨[], ['b']⟩ [] [], .leaf (T 'u')], .elem ⟨[], ['b']⟩ [] []]
+example : specList tAB {} [] forest1 = [S 'a', S 'x', E 'x', T 'u', E 'a', S 'b', E 'b'] := by decide
+example : (run 30 0 (some 1) (evItems (flattenList forest1)) [tAB]).map (·.2) = some (specList tAB {} [] forest1) := by
+  decide
+example : SlotAt 0 tAB ({} : PSt) [] [tAB] := ⟨tAB, rfl, Shape.refl _, rfl, rfl⟩
 
 example : NeverFires (σ := PSt) { step := fun st _ _ => (st, false), st := {}, body := [] } := fun _ _ _ => rfl
 example : BodyOK tWrap.body := by
